@@ -438,6 +438,14 @@ pub fn add_crash(run: &mut Run, kf: &KnownFindings, property: &str, tier: &str, 
 }
 
 pub fn replay(doc: &serde_json::Value) -> i32 {
+    replay_with::<RawSys>(doc)
+}
+
+pub fn replay_crash(doc: &serde_json::Value) -> i32 {
+    replay_with::<crate::crashx::CrashSys>(doc)
+}
+
+fn replay_with<S: seqx::Sys<Cfg = RawCfg>>(doc: &serde_json::Value) -> i32 {
     let pname = doc["replay"]["profile"].as_str().unwrap_or("full");
     let pname: &str = Box::leak(pname.to_string().into_boxed_str());
     let cfg = profile(pname);
@@ -450,8 +458,9 @@ pub fn replay(doc: &serde_json::Value) -> i32 {
     let root = Scratch::new("replay");
     for round in 0..2 {
         let d = root.sub(&format!("r{round}"));
+        crate::crashx::reset_image_cache();
         let (hist, last) = path.split_at(path.len() - 1);
-        let mut sys: RawSys = seqx::rebuild(&cfg, &d, hist);
+        let mut sys: S = seqx::rebuild(&cfg, &d, hist);
         let ops = sys.ops(&cfg);
         let op = &ops[last[0] as usize];
         let step = sys.apply(&cfg, op, true);
